@@ -93,10 +93,14 @@ func sh(fd int) *shard {
 // Seq returns a fresh global sequence number (shared with harness event logs).
 func Seq() int64 { return seq.Add(1) }
 
-func site() string {
-	var pcs [16]uintptr
-	n := runtime.Callers(2, pcs[:])
-	fr := runtime.CallersFrames(pcs[:n])
+func site() string { return siteN(1) }
+
+// siteN returns the innermost n framework frames (callee<-caller) above the shim.
+func siteN(n int) string {
+	var pcs [24]uintptr
+	k := runtime.Callers(2, pcs[:])
+	fr := runtime.CallersFrames(pcs[:k])
+	var out []string
 	for {
 		f, more := fr.Next()
 		fn := f.Function
@@ -105,13 +109,19 @@ func site() string {
 			if i := strings.LastIndex(fn, "/"); i >= 0 {
 				fn = fn[i+1:]
 			}
-			return fn
+			out = append(out, fn)
+			if len(out) >= n {
+				break
+			}
 		}
 		if !more {
 			break
 		}
 	}
-	return "?"
+	if len(out) == 0 {
+		return "?"
+	}
+	return strings.Join(out, "<-")
 }
 
 func trace(format string, a ...any) {
@@ -143,7 +153,7 @@ func LogTail(n int) []string {
 }
 
 func alarm(kind, op string, fd int, detail string) {
-	a := Alarm{Seq: seq.Add(1), Kind: kind, Op: op, FD: fd, Site: site(), Detail: detail}
+	a := Alarm{Seq: seq.Add(1), Kind: kind, Op: op, FD: fd, Site: siteN(2), Detail: detail}
 	alarmMu.Lock()
 	if len(alarms) < 1000 {
 		alarms = append(alarms, a)
